@@ -21,7 +21,7 @@
 (***************************************************************************)
 EXTENDS Integers, Sequences, FiniteSets, TLC, Json, IOUtils, SequencesExt, FiniteSetsExt, Rational
 
-CONSTANTS HasTrace, Areas, Units, FixedCosts, VarCosts, RateDen, Years, DoEmit
+CONSTANTS HasTrace, Areas, Units, FixedCosts, VarCosts, RateNum, RateDen, Years, DoEmit
 
 VARIABLES par, phase, l
 vars == <<par, phase, l>>
@@ -37,8 +37,9 @@ CostLinear(A, N, a, b) == RAdd(RMulI(R(a), N), RMulI(R(b), A))           \* c = 
 Init == /\ l = 1
         /\ IF HasTrace THEN par = <<>> /\ phase = "trace"
            ELSE /\ phase = "new"
-                /\ \E A \in Areas, N \in Units, a \in FixedCosts, b \in VarCosts, k \in RateDen, n \in Years :
-                      par = [A |-> A, N |-> N, a |-> a, b |-> b, i |-> <<1, k>>, n |-> n]
+                /\ \E A \in Areas, N \in Units, a \in FixedCosts, b \in VarCosts, m \in RateNum, k \in RateDen, n \in Years :
+                      /\ Norm(m, k)[1] + Norm(m, k)[2] <= 13        \* keeps (1 + i)^4 inside TLC's 32-bit integers
+                      /\ par = [A |-> A, N |-> N, a |-> a, b |-> b, i |-> Norm(m, k), n |-> n]     \* any positive rate, also above 100 % per year
 Eval == /\ phase = "new" /\ phase' = "done" /\ UNCHANGED <<par, l>>
 
 C15_AnnuitiesSumToOne == phase = "done" => RMul(Crf(par.i, par.n), Annuity(par.i, par.n)) = <<1, 1>>
